@@ -21,12 +21,14 @@ def isCmdOp (ty : Nat) : Bool :=
   ty == mds_PEG || ty == mds_MTAB
 
 /-- the linear fragment: rests, ties, notes of 1..65535 ticks, slur, commands with one or two
-argument bytes (`FLG` only with an argument that leaves drum mode off) -/
+argument bytes (`FLG` only with an argument that leaves drum mode off), and the rest / tie of
+length 0 (which `convert_track` drops without a trace) -/
 def linEv (ev : MEv) : Bool :=
   (ev.type == mds_REST && decide (1 ≤ ev.arg) && decide (ev.arg ≤ 65535)) ||
   (decide (mds_TIE ≤ ev.type) && decide (ev.type < mds_SLR) && decide (1 ≤ ev.arg) && decide (ev.arg ≤ 65535)) ||
   ev.type == mds_SLR ||
-  (isCmdOp ev.type && (ev.type != mds_FLG || drumSafe (ev.arg % 256)))
+  (isCmdOp ev.type && (ev.type != mds_FLG || drumSafe (ev.arg % 256))) ||
+  ((ev.type == mds_REST || ev.type == mds_TIE) && ev.arg == 0)
 
 /-- tick string of one MDSDRV event (control-flow events contribute nothing themselves) -/
 def evTicks (nS nM : Nat) (ev : MEv) : List Tk :=
@@ -45,6 +47,11 @@ theorem ticks_append (nS nM : Nat) (a b : List MEv) : ticks nS nM (a ++ b) = tic
   simp [ticks]
 
 /-! ### `encEv` on the event kinds -/
+
+/-- a rest or tie of length 0 emits nothing and is not remembered -/
+theorem encEv_zero (nS nM : Nat) (e : Enc) {ty : Nat} (h : ty = mds_REST ∨ ty = mds_TIE) :
+    encEv nS nM e ⟨ty, 0⟩ = .ok e := by
+  rcases h with rfl | rfl <;> rfl
 
 theorem encEv_other {nS nM : Nat} {e e1 : Enc} {ty arg : Nat} (hge : ty ≥ mds_SLR)
     (h : encOther nS nM e ty arg = .ok e1) (hne : ¬ (ty = mds_LPB ∧ e.breaks.head?.getD 0 ≠ 0) := by intro hh; exact absurd hh.1 (by decide)) :
@@ -127,7 +134,15 @@ theorem encEv_lin (nS nM : Nat) (e : Enc) (ev : MEv) (hv : linEv ev = true) :
     EvOk nS nM e ev (evTicks nS nM ev) := by
   obtain ⟨ty, arg⟩ := ev
   simp only [linEv, Bool.or_eq_true, Bool.and_eq_true, beq_iff_eq, decide_eq_true_eq, bne_iff_ne] at hv
-  rcases hv with ((⟨⟨hty, h1⟩, h2⟩ | ⟨⟨⟨h1, h2⟩, h3⟩, h4⟩) | hslr) | ⟨hcmd, hflg⟩
+  rcases hv with (((⟨⟨hty, h1⟩, h2⟩ | ⟨⟨⟨h1, h2⟩, h3⟩, h4⟩) | hslr) | ⟨hcmd, hflg⟩) | ⟨hz, ha⟩
+  rotate_right
+  · -- length 0
+    subst ha
+    have hev : evTicks nS nM ⟨ty, 0⟩ = [] := by
+      rcases hz with rfl | rfl <;> simp [evTicks, noteTicks, mds_REST, mds_TIE, mds_SLR]
+    rw [hev]
+    exact ⟨e, encEv_zero nS nM e hz, List.prefix_refl _, rfl, rfl,
+      fun _ _ _ s O _ g => ⟨s, .refl _, Frame.rfl' _, by simpa using g⟩⟩
   · -- rest
     subst hty
     have hev : evTicks nS nM ⟨mds_REST, arg⟩ = List.replicate arg Tk.off := by simp [evTicks]
